@@ -377,6 +377,7 @@ WHAT = {
     "func-model": "GetFunction model differs from the real linter",
     "stmt-model": "statement guard model differs from the real linter",
     "op-model": "operator model (Model/LintOps.v) differs from the real linter",
+    "op-interp-model": "simulator decision model (Model/InterpAssign.v) differs from the real simulator",
     "var-table": "linter/context/predefined.go differs from __generator__/predefined.yml",
     "func-table-ref": "linter/context/builtin.go differs from __generator__/builtin.yml",
     "dyn-ref": "linter/context/dynamic.go differs from __generator__/predefined.yml",
